@@ -8,12 +8,22 @@ NOTE = ("Trusted: Coq 8.16.1 kernel + vm_compute (used to run the model and for 
         "(Print Assumptions checked per run); the hand-written Gallina model, tied to /repo only by the differential "
         "correspondence check (generator-bounded); the Python harness, CPython, hashlib; the SSZ reading in Spec.v. "
         "See DESIGN.md section 7.")
-CLAIMED = {
+TEXT = {
+    "C01": ("Theorem C01_constructor (Coq, induction on the type expression): for EVERY well-formed type (arbitrary nesting, "
+            "every length/limit < 2^64) and EVERY well-formed value the constructor's backing has root = Spec.htr "
+            "(naive 'pad to 2^d and hash pairwise' merkleisation, mix-ins); fill_to_contents / fill_to_length / get_depth "
+            "proved against the spec; any CRep representation (zero summaries or expanded zeros) has the same root. Other "
+            "routes (decode, from_obj) tied by correspondence.",
+            "Coq proof by induction on ty + CRep invariant; vm_compute correspondence", "5 (C01)"),
     "C07": ("Theorems (Coq, all H/src/trees/paths, by induction on the path): read-back, frame (both directions), "
             "write-succeeds-iff-readable, only navigation errors, non-zero leaf never discarded, expansion under a zero "
             "summary = write on the expanded zero tree, summarize keeps the root. Tie to code: tree.py getter/setter/"
             "summarize_into run against the model on generated trees x gindices x expand.",
             "Coq proof by induction over paths + vm_compute correspondence with tree.py", "5 (C07)"),
+    "C11": ("Theorems: the implementation model's is_fixed / min / max / type_byte_length equal the specification's for "
+            "every type (induction on ty); every well-formed value's spec encoding length lies in [min_len, max_len] and "
+            "equals fsize for fixed types (full nesting). value_byte_length tied by correspondence + model-free oracle.",
+            "Coq proof by induction on ty (lia) + correspondence", "5 (C11)"),
     "C13": ("Theorems (Coq, every width w>=0, every operand): constructor accepts exactly [0,2^w); coercing operators "
             "(+ - * // % & | ^, both operand orders, same-type or plain-int operand) return the exact mathematical result "
             "or ValueError / ZeroDivisionError, never a wrapped or widened value; other-width operands refused; bitwise "
@@ -21,6 +31,13 @@ CLAIMED = {
             "Tie to code: basic.py operators run against the model on boundary/random operands for all six widths.",
             "Coq proof (lia + Z bit lemmas) + vm_compute correspondence with basic.py", "5 (C13)"),
 }
+import importlib, sys
+sys.path.insert(0, os.path.join(V, "harness"))
+CLAIMED = {}
+for pid, val in TEXT.items():
+    src = open(os.path.join(V, "harness", "props", pid.lower() + ".py")).read()
+    if "THEOREMS = []" not in src and os.path.exists(os.path.join(V, "coq", "props", pid + ".v")):
+        CLAIMED[pid] = val
 TODO_REASON = "machinery for this property is not built yet (work in progress; see DESIGN.md section 8 order)"
 props = [json.loads(l) for l in open(os.path.join(V, "properties.jsonl"))]
 checks, na = [], []
